@@ -12,6 +12,7 @@ import Mochi.Driver.WriteBuf
 import Mochi.Driver.Storage
 import Mochi.Driver.Reader
 import Mochi.Driver.Hostile
+import Mochi.Driver.Shutdown
 open Mochi.Driver
 
 structure DState where
@@ -22,6 +23,7 @@ structure DState where
   writebuf : WState := {}
   storage : St.StState := {}
   hostile : HState := {}
+  shutdown : SdState := {}
 
 /-- input line: `op args…<TAB>implementation output`;
     answer line: `model output<TAB>spec verdict<TAB>signature`; unknown op => `bad-op` -/
@@ -55,7 +57,10 @@ def answer (st : DState) (line : String) : DState × String :=
               | none =>
                 match St.storageOp st.storage impl ws with
                 | some (s', r) => ({ st with storage := s' }, fmt r)
-                | none => (st, "bad-op")
+                | none =>
+                  match shutdownOp st.shutdown impl ws with
+                  | some (d', r) => ({ st with shutdown := d' }, fmt r)
+                  | none => (st, "bad-op")
 
 partial def loop (h : IO.FS.Stream) (out : IO.FS.Stream) (st : DState) : IO Unit := do
   let line ← h.getLine
